@@ -124,7 +124,7 @@ def run(ctx):
                     ctx.fail("snapshot cannot be related to the program's objects: %s" % ex, desc, tag="unrelated")
     finally:
         e1.restore_clock(saved)
-    ctx.correspond("collector", e1.IMPORTS, "snap_case", "check_snap_case", lits, cj, shard=60)
+    ctx.correspond("collector", e1.IMPORTS, "snap_case", "check_snap_case_types", lits, cj, shard=60)
 
 
 def replay(ctx, data):
